@@ -268,6 +268,24 @@ def check(prop, ev, bounds=None, cvc5_cross=False):
                 res = [(a, b, {}) for a, b in rw] if rw else None
             else:
                 res = make_witness(o, model, lab)
+                if res is not None and role.startswith("C09:IfStatement:"):
+                    # the shape of the blocks matters to implementations that special-case `else if`: else-blocks that start
+                    # with an `if` and go on, nested if/else chains, an if-block that is itself an `if`
+                    src = ('.r = if .p == true { .ran_if = true; "first" } else { if .q == true { .nested = true }; .ran_else = true; "second" }\n.after = true\n')
+                    src2 = ('.r = if .p == true { if .q == true { .nested = true }; .ran_if = true; "first" } else if .q == true { .ran_elif = true; "elif" } else { .ran_else = true; "second" }\n.after = true\n')
+                    B = lambda b: {"Boolean": b}                                                                     # noqa: E731
+                    S_ = lambda x: {"Bytes": x}                                                                      # noqa: E731
+                    extra = []
+                    for pv in (True, False):
+                        for qv in (True, False):
+                            want = "first" if pv else "second"
+                            has = ["after"] + (["ran_if"] if pv else ["ran_else"]) + (["nested"] if (qv and not pv) else [])
+                            lacks = (["ran_else", "nested"] if pv else ["ran_if"]) + ([] if (qv and not pv) else ["nested"])
+                            extra.append(({"source": src, "event": {"p": pv, "q": qv}}, {"outcome": "ok", "event_eq": {"r": S_(want)}, "event_has": has, "event_lacks": sorted(set(lacks))}, {}))
+                            want2 = "first" if pv else ("elif" if qv else "second")
+                            has2 = ["after"] + (["ran_if"] if pv else (["ran_elif"] if qv else ["ran_else"])) + (["nested"] if (pv and qv) else [])
+                            extra.append(({"source": src2, "event": {"p": pv, "q": qv}}, {"outcome": "ok", "event_eq": {"r": S_(want2)}, "event_has": has2}, {}))
+                    res = (res if isinstance(res, list) else [res]) + extra
                 if res is not None and role.endswith("AssignVariant[Infallible]:infallible-error"):
                     # the order of the two stores is observable when the err target lies inside the ok target
                     res = (res if isinstance(res, list) else [res]) + [
